@@ -43,3 +43,47 @@ Definition sx1272_out_dbm (paconfig padac : Z) : Z :=
 
 (* ---- status conversions (datasheet): SX126x RssiPkt = -raw/2 dBm, SnrPkt = raw(signed)/4 dB;
    SX127x SNR = raw(signed)/4 dB, packet RSSI = offset + 16/15 raw (+ SNR when negative) *)
+
+(* ================================================================= SPI command formats (SX1261/2 datasheet chapter 13) *)
+Open Scope N_scope.
+Definition ds_bw_code (bw : N) : option N :=      (* bandwidth index 0..9 = 7.81 .. 500 kHz -> LoRa BW parameter *)
+  nth (N.to_nat bw) [Some 0x00; Some 0x08; Some 0x01; Some 0x09; Some 0x02; Some 0x0A; Some 0x03; Some 0x04; Some 0x05; Some 0x06] None.
+Definition ds_sf_code (sf : N) : option N := if sf <? 8 then Some (sf + 5) else None.        (* SF5..SF12 *)
+Definition ds_cr_code (cr : N) : option N := if cr <? 4 then Some (cr + 1) else None.        (* 4/5..4/8 *)
+Definition ds_SetSleep (warm : bool) : list N := [0x84; if warm then 4 else 0].
+Definition ds_SetStandbyRC : list N := [0x80; 0].
+Definition ds_SetRfFrequency (word : N) : list N := [0x86; (word / 16777216) mod 256; (word / 65536) mod 256; (word / 256) mod 256; word mod 256].
+Definition ds_SetModulationParams (sf bw cr ldro : N) : option (list N) :=
+  match ds_sf_code sf, ds_bw_code bw, ds_cr_code cr with Some s, Some b, Some c => Some [0x8B; s; b; c; ldro] | _, _, _ => None end.
+Definition ds_SetPacketParams (preamble : N) (implicit : bool) (len : N) (crc iq : bool) : list N :=
+  [0x8C; (preamble / 256) mod 256; preamble mod 256; if implicit then 1 else 0; len; if crc then 1 else 0; if iq then 1 else 0].
+Definition ds_SetBufferBaseAddress (txb rxb : N) : list N := [0x8F; txb; rxb].
+Definition ds_WriteBuffer (offset : N) : list N := [0x0E; offset].
+Definition ds_SetTx (t : N) : list N := [0x83; (t / 65536) mod 256; (t / 256) mod 256; t mod 256].
+Definition ds_SetRx (t : N) : list N := [0x82; (t / 65536) mod 256; (t / 256) mod 256; t mod 256].
+Definition ds_SetRxDutyCycle (rx sl : N) : list N :=
+  [0x94; (rx / 65536) mod 256; (rx / 256) mod 256; rx mod 256; (sl / 65536) mod 256; (sl / 256) mod 256; sl mod 256].
+Definition ds_StopTimerOnPreamble (on : bool) : list N := [0x9F; if on then 1 else 0].
+Definition ds_SetLoRaSymbNumTimeout (v : N) : list N := [0xA0; v].
+Definition ds_SetCadParams (symb peak dmin exit timeout : N) : list N :=
+  [0x88; symb; peak; dmin; exit; (timeout / 65536) mod 256; (timeout / 256) mod 256; timeout mod 256].
+Definition ds_SetCad : list N := [0xC5].
+Definition ds_SetTxContinuousWave : list N := [0xD1].
+Definition ds_SetPaConfig (duty hp devsel : N) : list N := [0x95; duty; hp; devsel; 1].
+Definition ds_SetTxParams (power ramp : N) : list N := [0x8E; power; ramp].
+Definition ds_ClearIrqStatus (mask : N) : list N := [0x02; (mask / 256) mod 256; mask mod 256].
+Definition ds_SetDioIrqParams (irq d1 d2 d3 : N) : list N :=
+  [0x08; (irq / 256) mod 256; irq mod 256; (d1 / 256) mod 256; d1 mod 256; (d2 / 256) mod 256; d2 mod 256; (d3 / 256) mod 256; d3 mod 256].
+Definition ds_CalibrateImage (f : N) : list N :=      (* table 9-2: 430-440, 470-510, 779-787, 863-870, 902-928 MHz *)
+  if 900000000 <? f then [0x98; 0xE1; 0xE9] else if 850000000 <? f then [0x98; 0xD7; 0xDB] else if 770000000 <? f then [0x98; 0xC1; 0xC5]
+  else if 460000000 <? f then [0x98; 0x75; 0x81] else if 425000000 <? f then [0x98; 0x6B; 0x6F] else [0x98; 0; 0].
+(* IRQ bits (table 13-29) *)
+Definition ds_irq_TxDone := 1. Definition ds_irq_RxDone := 2. Definition ds_irq_CadDone := 128. Definition ds_irq_CadDetected := 256. Definition ds_irq_Timeout := 512.
+(* errata 15.1 / 15.4: bit 2 of register 0x0889 is 0 for BW 500 kHz and 1 otherwise; bit 2 of 0x0736 is 0 with inverted IQ and 1 otherwise; other bits kept *)
+Definition ds_txmod (bw500 : bool) (old : N) : N := if bw500 then N.land old 0xFB else N.lor old 4.
+Definition ds_iqpol (inverted : bool) (old : N) : N := if inverted then N.land old 0xFB else N.lor old 4.
+
+(* ================================================================= SX1276 LoRa registers (datasheet chapter 6) -- field views *)
+Definition f_bits (v hi lo : N) : N := (v / 2 ^ lo) mod 2 ^ (hi - lo + 1).
+(* RegModemConfig1 0x1D: Bw 7:4, CodingRate 3:1, ImplicitHeaderModeOn 0; RegModemConfig2 0x1E: SF 7:4, TxContinuousMode 3, RxPayloadCrcOn 2,
+   SymbTimeout(9:8) 1:0; RegModemConfig3 0x26: LowDataRateOptimize 3, AgcAutoOn 2 *)
